@@ -1208,12 +1208,11 @@ class Tree(DirectedGraph):
             # check if root_vertex is valid
             self._check_vertex(root_vertex)
             # check if the tree is properly defined given the root
-            if not np.allclose(
-                csgraph.breadth_first_tree(
-                    self.adjacency_matrix, root_vertex, directed=True
-                ).nonzero(),
-                self.adjacency_matrix.nonzero(),
-            ):
+            # (compare the edge sets, not the order in which they are listed)
+            bft = csgraph.breadth_first_tree(
+                self.adjacency_matrix, root_vertex, directed=True
+            )
+            if set(zip(*bft.nonzero())) != set(zip(*self.adjacency_matrix.nonzero())):
                 raise ValueError(
                     "The combination of adjacency matrix and root "
                     "vertex is not valid. BFS returns a different "
